@@ -174,7 +174,7 @@ func main() {
 		"every (miniblock, side) has one notarizing meta block; records use epochs inside the active window of the metadata storer; the storers are told about a new epoch before blocks of that epoch are recorded",
 		"sequential interleavings only (operation granularity); the asynchronous delivery of OnNotarizedBlocks in production is modelled by the arbitrary order of operations")
 	r.MinShapes(40)
-	nCases := r.N(3000, 60000)
+	nCases := r.N(3000, 100000)
 	r.Parallel(nCases, func(c *vk.Case) { runCase(r, c) })
 	r.Finish()
 }
